@@ -13,8 +13,13 @@ the unstructure side builds the same mapping as the structure side).
 What `typing` introspection returns (`get_args`, `__parameters__`, `__orig_bases__`, normalisation of unions) is an
 input of the model: the harness supplies annotations in the canonical form of what `typing` actually built.
 
+Multiple inheritance is modelled as far as `__orig_bases__` goes: any number of non-generic bases (plain mixins, an
+empty `TypedDict`) may be listed before and after the parametrised base (`Level.plainBefore` / `Level.plainAfter`);
+both loops over `__orig_bases__` skip them (`C17_plain_bases_skipped`).  The fields such a mixin contributes are
+collected by attrs / dataclasses after the parametrised base's and before the class's own: the harness presents them
+as leading own fields of the level.
 Not modelled: a class inheriting `__orig_bases__` from an unparametrised generic base (`class C(B)` with `B` generic),
-multiple inheritance.  Core Lean only.
+more than one parametrised base.  Core Lean only.
 -/
 namespace CattrsModel.Generics
 
@@ -276,6 +281,10 @@ structure Level where
   own : List (String × Ann)
   /-- the arguments of the parametrised base (next level of the chain); `[]` at the last level -/
   baseArgs : List Ann
+  /-- number of non-generic bases listed BEFORE the parametrised base (`class G(Mixin, B[T], Generic[T])`) -/
+  plainBefore : Nat := 0
+  /-- number of non-generic bases listed after the parametrised base and before `Generic[…]` -/
+  plainAfter : Nat := 0
   deriving Repr, Inhabited
 
 /-- the type handed to `structure` / `unstructure`: the class itself or `G[args…]` (`args` = `get_args`) -/
@@ -290,15 +299,36 @@ inductive OrigBase where
   | param (baseParams : List String) (args : List Ann)
   /-- `Generic[params…]` -/
   | generic (params : List String)
-  deriving Repr
+  /-- a non-generic class (a plain mixin, an empty `TypedDict`): no `__args__`, not `is_generic` -/
+  | plain
+  deriving Repr, DecidableEq
 
-/-- `cl.__orig_bases__` (parametrised base first, `Generic[…]` last; `TypedDict` itself has no `__args__` and is skipped) -/
-def origBases : List Level → List OrigBase
+/-- the entries of `cl.__orig_bases__` that are parametrised (parametrised base first, `Generic[…]` last; `TypedDict`
+    itself has no `__args__` and is skipped) -/
+def origBasesCore : List Level → List OrigBase
   | [] => []
   | [lv] => if lv.genericBase && !lv.params.isEmpty then [.generic lv.params] else []
   | lv :: b :: _ =>
     (if lv.baseArgs.isEmpty then [] else [.param b.params lv.baseArgs]) ++
     (if lv.genericBase && !lv.params.isEmpty then [.generic lv.params] else [])
+
+/-- `cl.__orig_bases__`, in the order of the class statement: non-generic bases, the parametrised base, further
+    non-generic bases, `Generic[…]` -/
+def origBases : List Level → List OrigBase
+  | [] => []
+  | [lv] => List.replicate lv.plainBefore .plain ++ (List.replicate lv.plainAfter .plain ++
+      (if lv.genericBase && !lv.params.isEmpty then [.generic lv.params] else []))
+  | lv :: b :: _ =>
+    List.replicate lv.plainBefore .plain ++
+    ((if lv.baseArgs.isEmpty then [] else [.param b.params lv.baseArgs]) ++
+     (List.replicate lv.plainAfter .plain ++
+      (if lv.genericBase && !lv.params.isEmpty then [.generic lv.params] else [])))
+
+/-- `__orig_bases__` without its non-generic entries -/
+def dropPlain : List OrigBase → List OrigBase
+  | [] => []
+  | .plain :: r => dropPlain r
+  | b :: r => b :: dropPlain r
 
 /-- type variables are shared by name across the chain: the PEP 696 default of a variable (`dict.update` order) -/
 def globalDefaults : List Level → Mapping
@@ -331,6 +361,8 @@ def genMapBare (dfl : Mapping) : List OrigBase → Mapping → Mapping
   | .param bps args :: r, m => genMapBare dfl r (bindAll m bps args)
   | .generic ps :: r, m =>
     genMapBare dfl r (if ps.any (fun p => (lookup dfl p).isSome) then bindDefaults dfl m ps else m)
+  -- `if not hasattr(base, "__args__"): continue`
+  | .plain :: r, m => genMapBare dfl r m
 
 /-- `is_generic(cl)` for a bare class: a subclass of `Generic` that has `__orig_bases__` -/
 def isGenericBare (chain : List Level) : Bool := chain.any (fun lv => !lv.params.isEmpty)
@@ -347,6 +379,7 @@ def firstParamBase : List OrigBase → Option (List String × List Ann)
   | [] => none
   | .param bps args :: _ => some (bps, args)
   | .generic _ :: r => firstParamBase r
+  | .plain :: r => firstParamBase r
 
 /-- the mapping `make_dict_structure_fn` hands to the template:
     `generate_mapping(cl)` if `is_generic(cl)`, then `generate_mapping(base, mapping)` for the first parametrised base
@@ -555,6 +588,11 @@ def aliasResolve (params : List String) (value : Ann) (args : List Ann) : Option
     match lookup m n with
     | some v => some v
     | none => deepCopyWith m none value
+
+/-- the type whose hook the UNSTRUCTURE side uses for `Alias[args…]`:
+    `lambda t: self.get_unstructure_hook(get_type_alias_base(t))` — the alias' `__value__` as it stands; the arguments
+    are ignored (recorded finding F50) -/
+def aliasUnstructType (_params : List String) (value : Ann) (_args : List Ann) : Ann := value
 
 /-! ## names of the generated structure functions -/
 
